@@ -14,7 +14,8 @@ RULE = ("Program ASTs: node definitions, modifications of base nodes, '!constant
         "and after blocks; the same name defined in several clauses; blocks with compact names ('ga.@case', contents below "
         "ga) next to plain ones, where a following block of another path is a new block; blank and comment lines "
         "sprinkled between the lines; conditions with == != < >= <=; a node followed by one whose value references it, "
-        "inside clauses (an unselected clause must not even resolve the reference). Oracle: reference interpreter - selected clause = "
+        "inside clauses (an unselected clause must not even resolve the reference); imports from a second file inside "
+        "clauses; chains of 3-4 directly nested blocks under every truth assignment. Oracle: reference interpreter - selected clause = "
         "first true, else @else; an item takes effect iff every enclosing block selects its clause; case indentation "
         "does not enter names. Compared with env.data() (keys in first-effect order, values) and the constant flags. "
         "Programs with a stray @else/@end where no block is open must raise. Non-trivial: an all-false block closed by "
@@ -22,6 +23,7 @@ RULE = ("Program ASTs: node definitions, modifications of base nodes, '!constant
         "Distinct = distinct rendered text.")
 ASSUMPTIONS = [
     "conditions inside clauses only refer to nodes defined at the root before the first block",
+    "the imported file holds two int nodes; importing it twice below one parent re-assigns the same values",
     "modifications only target those base nodes, so they are valid whenever they take effect",
 ]
 NT_FLOOR = 0.3
@@ -50,6 +52,7 @@ def items(depth):
         st.tuples(st.just("mod"), st.sampled_from(BASE[:2]), st.integers(0, 2)),
         st.tuples(st.just("unit")),                       # '$unit uN = 2 cm' directly followed by a node that uses it
         st.tuples(st.just("refdef")),                     # a node and, on the next line, one whose value references it
+        st.tuples(st.just("simport")),                    # '{aux?*}': two nodes imported from a second file
     ).map(list)
     if depth == 0:
         return st.lists(leaf, min_size=0, max_size=3)
@@ -85,6 +88,17 @@ def program(draw, depth):
         if "ref" in c:
             blk = lambda n: ["block", [{"cond": dict(c), "items": [["def", n, 1, False]]}], [["def", n, 2, False]], True]
             body = body + [blk("r1"), ["mod", c["ref"], draw(st.integers(0, 2))], blk("r2")]
+    if draw(st.integers(0, 3)) == 0:
+        # a chain of 3-4 directly nested blocks with every truth assignment: an unselected clause anywhere up the chain
+        # switches everything below it off
+        depth_ = draw(st.integers(3, 4))
+        inner = [["def", "q", 9, False]]
+        for lvl in range(depth_, 0, -1):
+            blk_ = ["block", [{"cond": {"lit": draw(st.booleans())},
+                               "items": [["def", f"l{lvl}", lvl, False]] + inner + [["def", f"m{lvl}", 10 + lvl, False]]}],
+                    None, draw(st.booleans()), None]
+            inner = [blk_]
+        body = body + inner + [["def", "tail", 1, False]]
     stray = draw(st.sampled_from([None] * 9 + ["else_end", "end_end", "else_start", "end_start", "else_after_closed",
                                                "else_in_clause", "else_in_group", "else_deeper_after_node"]))
     # blank and comment lines are legal anywhere and must not end (or keep open) a clause
@@ -117,6 +131,18 @@ def _explicit_end(its, idx):
     return bool(end or (nxt is not None and nxt[0] == "block" and _block(nxt)[4] == pf))
 
 
+def _uses_aux(its):
+    for it in its:
+        if it[0] == "simport":
+            return True
+        if it[0] == "group" and _uses_aux(it[2]):
+            return True
+        if it[0] == "block":
+            if any(_uses_aux(c["items"]) for c in it[1]) or (it[2] is not None and _uses_aux(it[2])):
+                return True
+    return False
+
+
 def render_items(its, level, widths, out, prefix=""):
     ind = " " * sum(widths[:level])
     for idx, it in enumerate(its):
@@ -130,6 +156,8 @@ def render_items(its, level, widths, out, prefix=""):
         elif k == "unit":
             out.append(f"{ind}$unit u{it[1]} = 2 cm")
             out.append(f"{ind}uv{it[1]} float = 3 [u{it[1]}]")
+        elif k == "simport":
+            out.append(f"{ind}{{aux?*}}")
         elif k == "refdef":
             out.append(f"{ind}rw{it[1]} int = 7")
             out.append(f"{ind}rd{it[1]} int = {{?{prefix}rw{it[1]}}}")
@@ -151,6 +179,8 @@ def render_items(its, level, widths, out, prefix=""):
 
 def render(case):
     out = [f"{n} int = {v}" for n, v in zip(BASE, case["base"])]
+    if _uses_aux(case["items"]):
+        out = ["$source aux = @AUXPATH@"] + out
     body = []
     render_items(case["items"], 0, case["widths"], body)
     if case.get("fill"):
@@ -196,7 +226,8 @@ def interpret(case):
     model = {}
     const = {}
     info = {"allfalse_indent_then_node": False, "nested_in_unselected": False, "max_clauses": 0,
-            "compact_names": False, "sibling_blocks_by_indent": False, "reference_in_unselected": False}
+            "compact_names": False, "sibling_blocks_by_indent": False, "reference_in_unselected": False,
+            "import_from_second_file": False}
     for n, v in zip(BASE, case["base"]):
         model[n] = v
         const[n] = False
@@ -218,6 +249,12 @@ def interpret(case):
                 if active:
                     model[prefix + f"uv{it[1]}"] = 3.0
                     const.setdefault(prefix + f"uv{it[1]}", False)
+            elif k == "simport":
+                if active:
+                    for nm, val in (("auxa", 5), ("auxb", 6)):
+                        model[prefix + nm] = val
+                        const.setdefault(prefix + nm, False)
+                    info["import_from_second_file"] = True
             elif k == "refdef":
                 if active:
                     for nm in (f"rw{it[1]}", f"rd{it[1]}"):
@@ -290,7 +327,7 @@ def _redefinition_of_constant(case):
             elif k == "mod":
                 if active:
                     model[it[1]] = it[2]
-            elif k in ("unit", "refdef"):
+            elif k in ("unit", "refdef", "simport"):
                 pass
             elif k == "group":
                 walk(it[2], prefix + it[1] + ".", active)
@@ -318,6 +355,8 @@ def _normalise(its, in_group, counter=None):
     for it in its:
         if it[0] in ("unit", "refdef"):
             out.append([it[0], next(counter)])
+        elif it[0] == "simport":
+            out.append(["simport"])
         elif it[0] == "def" and it[3]:
             out.append(["def", f"k{next(counter)}", it[2], True])
         elif it[0] == "mod" and in_group:
@@ -341,12 +380,27 @@ def _check(case, v):
         return v.discard("constant-redefined")
     text = render(case)
     model, const, info = interpret(case)
+    tmp = None
+    run_text = text
+    if "@AUXPATH@" in text:
+        import os
+        import tempfile
+        tmp = tempfile.mkdtemp(prefix="svc15_")
+        with open(os.path.join(tmp, "aux.dip"), "w") as f:
+            f.write("auxa int = 5\nauxb int = 6\n")
+        run_text = text.replace("@AUXPATH@", os.path.join(tmp, "aux.dip"))
+        text = text.replace("@AUXPATH@", "aux.dip   # holds: auxa int = 5 / auxb int = 6")
     try:
-        with DIP(name=f"c15_{next(_uid)}") as p:
-            p.add_string(text)
-            env = p.parse()
-        data = env.data()
-        nodes = env.data(Format.NODE)
+        try:
+            with DIP(name=f"c15_{next(_uid)}") as p:
+                p.add_string(run_text)
+                env = p.parse()
+            data = env.data()
+            nodes = env.data(Format.NODE)
+        finally:
+            if tmp:
+                import shutil
+                shutil.rmtree(tmp, ignore_errors=True)
     except Exception as e:
         if case["stray"]:
             v.nt(True)
@@ -369,7 +423,7 @@ def _check(case, v):
     if case.get("fill") and any(case["fill"]):
         v.label("blank_or_comment_lines")
     for key in ("allfalse_indent_then_node", "nested_in_unselected", "compact_names", "sibling_blocks_by_indent",
-                "reference_in_unselected"):
+                "reference_in_unselected", "import_from_second_file"):
         if info[key]:
             v.label(key)
     if info["max_clauses"] >= 3:
